@@ -144,6 +144,7 @@ class BaseStorage:
         if sub_id:
             try:
                 sub = self.clients[client_id][sub_id]
+                queue = sub.queue
                 sub.cancel()
                 del self.clients[client_id][sub_id]
                 self.log.debug("%s/%s -", client_id, sub_id)
@@ -151,7 +152,6 @@ class BaseStorage:
                 pass
             else:
                 # what is still waiting to be sent for this subscription is stale now
-                queue = sub.queue
                 if queue is not None:
                     waiting = []
                     while not queue.empty():
@@ -352,6 +352,8 @@ class BaseSubscription:
         return True
 
     def cancel(self):
+        # notify() tasks created before the CLOSE may still run after it
+        self.queue = None
         if self.query_task:
             self.query_task.cancel()
 
@@ -375,8 +377,9 @@ class BaseSubscription:
             matched,
             t.duration * 1000,
         )
-        if matched:
-            await self.queue.put((self.sub_id, event))
+        queue = self.queue
+        if matched and queue is not None:
+            await queue.put((self.sub_id, event))
 
     def check_event(self, event: Event, filters: list):
         for query in filters:
